@@ -8,7 +8,7 @@ Nothing here decides what must hold: the expected verdict, the machine's predict
 obligations all come from TLC.  The renderer only chooses a concrete spelling (names, blanks, quotes,
 comments, nesting in a group, the order of constraint KINDS) - variations the property is blind to.
 """
-import math, re, random
+import math, os, re, random
 from fractions import Fraction
 
 SCALE = 10 ** 7          # 1 ulp of the spec = 1e-7 relative
@@ -52,7 +52,7 @@ def num_text(l, style):
 
 
 def array_text(ty, shape, salt):
-    """A JSON array of the given shape, tight notation; element values are irrelevant to the property."""
+    """A JSON array of the given shape (any rank), tight notation; element values are irrelevant to the property."""
     def elem(i):
         if ty == "int":
             return str(1 + (i + salt) % 7)
@@ -61,10 +61,14 @@ def array_text(ty, shape, salt):
         if ty == "bool":
             return "true" if (i + salt) % 2 else "false"
         return '"' + "abcdefg"[(i + salt) % 7] + '"'
-    if len(shape) == 1:
-        return "[" + ",".join(elem(i) for i in range(shape[0])) + "]"
-    return "[" + ",".join("[" + ",".join(elem(r * shape[1] + c) for c in range(shape[1])) + "]"
-                          for r in range(shape[0])) + "]"
+    counter = [0]
+
+    def build(sh):
+        if not sh:
+            counter[0] += 1
+            return elem(counter[0])
+        return "[" + ",".join(build(sh[1:]) for _ in range(sh[0])) + "]"
+    return build(list(shape))
 
 
 def dims_text(dims):
@@ -159,9 +163,77 @@ def kind_rank(c):
     return 3 if c["c"] == "cond" else 4
 
 
+SRCDIR = "@SRCDIR@"       # placeholder for the directory observe() writes source files to
+
+
+def render_import(p, rnd):
+    """The node is defined in a group (local) or in a source file (source), imported, and the copy modified."""
+    name = rnd.choice(["x", "size", "val_1", "n0"])
+    step = rnd.choice(["  ", "    "])
+    cm = lambda: rnd.choice(["", "", "  # c"])
+    salt = rnd.randrange(7)
+    tyname = p["ty"] + (dims_text(p["dims"]) if p["dims"] else "")
+    if p["def"]["t"] == "decl":
+        ln = name + " " + tyname + (" " + p["nu"] if p["nu"] else "")
+    elif p["def"]["t"] == "arr":
+        ln = name + " " + tyname + " = " + array_text(p["ty"], p["def"]["shape"], salt) + (" " + p["nu"] if p["nu"] else "")
+    elif p["def"]["t"] == "none":
+        ln = name + " " + tyname + " = none" + (" " + p["nu"] if p["nu"] else "")
+    else:
+        ln = name + " " + tyname + " = " + value_text(p, p["def"], rnd)
+    groups = {}
+    for c in p["cons"]:
+        groups.setdefault(kind_rank(c), []).append(c)
+    order = list(groups)
+    rnd.shuffle(order)
+    clines = []
+    for k in order:
+        for c in groups[k]:
+            clines += cons_lines(p, c, rnd)
+    template = [ln + cm()] + [step + c for c in clines]
+    extra = rnd.random() < 0.4                      # a second, unconstrained node beside it
+    if extra:
+        template.append("other_t int = 5")
+    lines, files = [], {}
+    if rnd.random() < 0.3:
+        lines.append("w_pre int = 7")
+    if p["via"] == "local":
+        lines.append("tmpl")
+        lines += ["  " + t for t in template]
+        ref = "?tmpl."
+        orig = "tmpl." + name
+    else:
+        files["tmpl.dip"] = "\n".join(template) + "\n"
+        lines.append("$source src = " + SRCDIR + "/tmpl.dip")
+        ref = "src?"
+        orig = None
+    form = rnd.choice(["all", "one", "bare", "nested"])
+    if form == "all":
+        lines.append("p {" + ref + "*}" + cm())
+        path = "p." + name
+    elif form == "one":
+        lines.append("p {" + ref + name + "}" + cm())
+        path = "p." + name
+    elif form == "nested":
+        lines.append("p")
+        lines.append("  {" + ref + ("*" if rnd.random() < 0.5 else name) + "}")
+        path = "p." + name
+    else:
+        lines.append("{" + ref + name + "}")
+        path = name
+    for j, m in enumerate(p["mods"]):
+        typed = rnd.random() < 0.25 and not p["dims"]
+        lines.append(path + (" " + p["ty"] if typed else "") + " = " + value_text(p, m, rnd, salt + j + 1) + cm())
+    if rnd.random() < 0.3:
+        lines.append("z_post int = 1")
+    return {"text": "\n".join(lines) + "\n", "path": path, "bypath": None, "origpath": orig, "files": files}
+
+
 def render(p, seed):
-    """-> dict(text, path, bypath).  Deterministic in (p, seed)."""
+    """-> dict(text, path, bypath, origpath, files).  Deterministic in (p, seed)."""
     rnd = random.Random(seed)
+    if p.get("via", "direct") != "direct":
+        return render_import(p, rnd)
     name = rnd.choice(["x", "size", "val_1", "n0"])
     byname = rnd.choice(["y", "other", "ref_2"])
     grouped = rnd.random() < 0.3
@@ -216,7 +288,7 @@ def render(p, seed):
         lines.append((mind if inside else "") + "z_post int = 1")
     path = ("grp." if grouped else "") + name
     bypath = ("grp." if grouped else "") + byname
-    return {"text": "\n".join(lines) + "\n", "path": path, "bypath": bypath}
+    return {"text": "\n".join(lines) + "\n", "path": path, "bypath": bypath, "origpath": None, "files": {}}
 
 
 # ----------------------------------------------------------------------------- observation
@@ -248,8 +320,23 @@ def _speedup():
     _FAST[0] = True
 
 
-def observe(text):
-    """-> ("accept", {path: [value, unit]}) | ("reject", "ExcType: message")"""
+def observe(text, files=None):
+    """-> ("accept", {path: [value, unit]}) | ("reject", "ExcType: message")
+    files: {name: content} written to a scratch directory whose path replaces SRCDIR in the text."""
+    if files:
+        import tempfile, shutil
+        d = tempfile.mkdtemp(prefix="snt-c16-src-", dir="/var/tmp")
+        try:
+            for fn, content in files.items():
+                with open(os.path.join(d, fn), "w") as f:
+                    f.write(content)
+            return _observe(text.replace(SRCDIR, d))
+        finally:
+            shutil.rmtree(d, ignore_errors=True)
+    return _observe(text)
+
+
+def _observe(text):
     from scinumtools.dip import DIP
     from scinumtools.dip.settings import Format
     _speedup()
